@@ -36,17 +36,17 @@ _RE_TEMPORAL = re.compile(r"Error: Temporal propert(?:y|ies) (.*?) (?:was|were) 
 # ---------------------------------------------------------------------------------------------
 
 def model_cfg(name, dev=(), threads=1, wc=2, ka=2, nconn=2, maxreq=1, faults=0, term=True, live=False,
-              obs=False, invariants=None, props=None):
+              obs=False, invariants=None, props=None, fine=True, liveprops=None):
     path = os.path.join(OUT, "cfg", name + ".cfg")
     os.makedirs(os.path.dirname(path), exist_ok=True)
     inv = list(invariants if invariants is not None else SAFETY_INV)
     tlc.write_cfg(path, spec="Spec" if live else "SafetySpec",
                   constants={"Threads": threads, "WC": wc, "KA": ka, "NConn": nconn, "MaxReq": maxreq,
-                             "Faults": faults, "AllowTerm": term, "Dev": set(dev), "Obs": obs,
+                             "Faults": faults, "AllowTerm": term, "Fine": fine, "Dev": set(dev), "Obs": obs,
                              "MaxLevel": 600},
                   invariants=inv,
                   properties=(props if props is not None else ["NoCloseWhileHandled", "NoPendingDroppedAtExit"])
-                  + (LIVENESS if live else []),
+                  + ((liveprops if liveprops is not None else LIVENESS) if live else []),
                   constraints=["LevelBound"])
     return path
 
